@@ -46,6 +46,9 @@ func (s *seam) Write(p []byte) (int, error) {
 		line := string(buf[:i])
 		buf = buf[i+1:]
 		s.bufs[id] = buf
+		if line == "" {
+			continue
+		}
 		vrt.Emit("tok", line)
 		if s.park {
 			vrt.Park("tok:" + line)
@@ -111,7 +114,7 @@ func buildWorld(sc *Scenario) *world {
 			t.Commands = append(t.Commands, cmdFor(c, i == tc.FailAt))
 		}
 		if tc.Reads != "" {
-			t.Commands = append(t.Commands, "echo \"got:"+tc.Name+":$"+tc.Reads+"\"")
+			t.Commands = append(t.Commands, "echo \"got:"+tc.Name+":${"+tc.Reads+"//$'\\n'/+}\"")
 		}
 		switch tc.Cond {
 		case "true":
@@ -159,7 +162,7 @@ func body(sc *Scenario) func() {
 				vrt.Emit("builderr", err.Error())
 				return
 			}
-			sd = scheduler.NewScheduler(w.r)
+			sd = scheduler.NewScheduler(&obsRunner{w.r})
 		}
 		var wg vsync.WaitGroup
 		for i := 0; i < sc.Cancellers; i++ {
@@ -217,6 +220,18 @@ func body(sc *Scenario) func() {
 		vrt.Emit("end", "")
 	}
 }
+
+// obsRunner makes Run calls issued by the scheduler visible in the event log.
+type obsRunner struct{ r *runner.TaskRunner }
+
+func (o *obsRunner) Run(t *task.Task) error {
+	vrt.Emit("run.call", t.Name)
+	err := o.r.Run(t)
+	vrt.Emit("run.ret", fmt.Sprintf("%s|%s|errored=%v|skipped=%v", t.Name, errStr(err), t.Errored, t.Skipped))
+	return err
+}
+func (o *obsRunner) Cancel() { o.r.Cancel() }
+func (o *obsRunner) Finish() { o.r.Finish() }
 
 func orderByDeps(ts []TaskCfg) []TaskCfg {
 	done := map[string]bool{}
